@@ -991,7 +991,13 @@ Definition names_event (n : string) (o : Z) (e : event) : Prop :=
   | Grant _ o' sw => o' = o /\ n = sw                                      (* first send: getOrCreateURLForReference *)
   | Msg _ _ clid (MStr m) _ => n = ""%string /\ clid = broker_clid /\ m = "getReferenceByName"%string
        (* the reference sent back by a lookup: the object already has a name in every run observed; the model's
-          placeholder for the swissnum it would otherwise draw is the empty string *)
+          placeholder for the swissnum it would otherwise draw is the empty string.
+          CONSEQUENCE (review 2, item 3): as far as names_origin knows, the name "" may enter the table through ANY name
+          lookup.  names_origin quantifies over arbitrary start states, and from a start state whose two name tables
+          disagree that really happens in the model (empty_name_enters_by_lookup below), so the clause cannot be dropped
+          there; this is the only reason why revoked_name_refused / unregistered_name_stays_refused carry the guard
+          n <> "" (for n = "" their hypothesis "no names_event" would have to exclude every lookup message).
+          Nothing is claimed about the name "". *)
   | _ => False
   end.
 
@@ -1152,3 +1158,78 @@ Example ex_locality_hyps :
   forallb (fun e => negb (relevant CA e && is_lookup e)) (ex_h1 ++ ex_h2) = true /\
   codes (results_on CA ex_h1 (snd (run ex_world init ex_h1))) = [(7, []); (11, []); (1, [])].
 Proof. vm_compute. repeat split. Qed.
+
+(* ------------------------------------------------------------------ unregisterReference revokes the name (review 2, item 2) *)
+Lemma sget_sdel_same {V} n (l : list (string * V)) : sget n (sdel n l) = None.
+Proof.
+  induction l as [|[k v] l IH]; [reflexivity|]. cbn [sdel]. destruct (String.eqb n k) eqn:E; [exact IH|].
+  cbn [sget]. rewrite E. exact IH.
+Qed.
+Lemma sget_sdel_other {V} n n' (l : list (string * V)) : n' <> n -> sget n' (sdel n l) = sget n' l.
+Proof.
+  intros NE. induction l as [|[k v] l IH]; [reflexivity|]. cbn [sdel]. destruct (String.eqb n k) eqn:E.
+  - apply String.eqb_eq in E. subst k. cbn [sget]. destruct (String.eqb n' n) eqn:E2; [apply String.eqb_eq in E2; contradiction|exact IH].
+  - cbn [sget]. destruct (String.eqb n' k); [reflexivity|exact IH].
+Qed.
+Lemma zget_zdel_same' {V} k (l : list (Z * V)) : zget k (zdel k l) = None.
+Proof.
+  induction l as [|[k' v] l IH]; [reflexivity|]. cbn [zdel]. destruct (k =? k') eqn:E; [exact IH|]. cbn [zget]. rewrite E. exact IH.
+Qed.
+Lemma sget_none_not_in {V} n (v : V) l : sget n l = None -> ~ In (n, v) l.
+Proof.
+  induction l as [|[k v'] l IH]; intros G H; [destruct H|]. cbn [sget] in G. destruct (String.eqb n k) eqn:E; [discriminate|].
+  destruct H as [H|H]; [inversion H; subst; rewrite String.eqb_refl in E; discriminate | exact (IH G H)].
+Qed.
+
+(* tub.unregisterReference(o), for an object registered under n (both tables know it): afterwards the name table has no
+   entry for n, the object has no name, only the application's lookup handler could still answer n, every other name resolves
+   as before.  (A model whose Unregister does nothing violates the first three conjuncts.) *)
+Theorem unregister_revokes : forall w st o n,
+  zget o (s_r2n st) = Some n -> is_some (sget n (s_n2r st)) = true ->
+  let st' := fst (step w st (Unregister o)) in
+  sget n (s_n2r st') = None /\ zget o (s_r2n st') = None /\ lookup_name w st' n = sget n (s_h st) /\ (forall n', n' <> n -> lookup_name w st' n' = lookup_name w st n') /\ s_a st' = s_a st /\ s_b st' = s_b st.
+Proof.
+  intros w st o n R N. cbn [step fst]. rewrite R, N. cbn [set_names s_n2r s_r2n s_h s_a s_b]. unfold lookup_name. cbn [set_names s_n2r s_h].
+  rewrite sget_sdel_same, zget_zdel_same'. repeat split; auto.
+  intros n' NE. rewrite (sget_sdel_other n n' _ NE). reflexivity.
+Qed.
+
+(* ... and it STAYS revoked, on every connection, whatever happens afterwards, until the application publishes that name again
+   (registerReference / a first send that draws it) or its handler serves it.  n <> "": see names_event. *)
+Theorem unregistered_name_stays_refused : forall w st o n h,
+  zget o (s_r2n st) = Some n -> is_some (sget n (s_n2r st)) = true -> n <> ""%string ->
+  (forall e, In e h -> forall o', ~ names_event n o' e) ->
+  let st2 := fst (run w (fst (step w st (Unregister o))) h) in
+  sget n (s_h st2) = None -> lookup_name w st2 n = None.
+Proof.
+  intros w st o n h R N NE NN st2 HS. destruct (unregister_revokes w st o n R N) as [G _].
+  unfold lookup_name. destruct (sget n (s_n2r st2)) as [o2|] eqn:G2; [|exact HS].
+  exfalso. apply sget_In in G2. destruct (names_origin w h _ n o2 G2) as [H|[e [He Ne]]].
+  - exact (sget_none_not_in _ _ _ G H).
+  - exact (NN e He o2 Ne).
+Qed.
+
+(* the region the guard excludes: an object that only the lookup HANDLER ever answered has a name in referenceToName but none in
+   nameToReference; unregisterReference then does nothing (in the code: KeyError at `del self.nameToReference[name]`) and
+   the name keeps resolving for as long as the handler serves it -- revoking it is the handler's business (revoked_name_refused) *)
+Theorem unregister_handler_name_refuted :
+  exists w st o n, zget o (s_r2n st) = Some n /\ is_some (sget n (s_n2r st)) = false /\                  lookup_name w (fst (step w st (Unregister o))) n = Some o.
+Proof.
+  exists ex_world,
+    (fst (run ex_world init [Serve "dyn" 1; Msg CA 1 0 (MStr "getReferenceByName") [ABytes (MStr "dyn")]]%string)), 1, "dyn"%string.
+  vm_compute. auto.
+Qed.
+
+Example ex_unregister_revokes :
+  let st := fst (run ex_world init [Register "pub" 2 "sw0"]%string) in
+  zget 2 (s_r2n st) = Some "pub"%string /\ is_some (sget "pub"%string (s_n2r st)) = true /\ lookup_name ex_world st "pub" = Some 2 /\ lookup_name ex_world (fst (step ex_world st (Unregister 2))) "pub" = None.
+Proof. vm_compute. auto. Qed.
+
+(* why names_event needs its third clause (and the theorems above their guard n <> ""): from a start state whose name tables
+   disagree -- "pub" -> 1 in nameToReference, nothing in referenceToName -- a lookup of "pub" with an answer wanted sends object 1
+   for the first time, and the model's placeholder name "" enters the table.  No such state is reached from init in any run
+   observed (the correspondence compares the name table after every history). *)
+Example empty_name_enters_by_lookup :
+  let st := set_names init [("pub"%string, 1)] [] in
+  In (""%string, 1) (s_n2r (fst (step ex_world st (Msg CA 1 0 (MStr "getReferenceByName") [ABytes (MStr "pub")])))).
+Proof. vm_compute. auto. Qed.
